@@ -32,5 +32,10 @@ def run(eng, ctx):
     from .C07 import payload_verbatim
 
     payload_verbatim(eng, ctx, "C07.D3")  # "the parsed message's payload is exactly the one carried by that slice"
+    # "a contiguous slice of the input byte stream" for a socket-backed reader rests on the wrapper handing the received bytes on in order,
+    # each exactly once (C11-D1..D5, shared)
+    from . import C11 as SOCKET
+
+    SOCKET.run(eng, ctx)
     ctx.instance("read-primitive call sites", len(eng.res.callers_of(eng.read_primitive)), 7)
     ctx.assume("the underlying stream's read(n) returns at most n bytes, in stream order")
